@@ -20,7 +20,7 @@ EXPLANATION = (
     'lock region as the write; (c) status guards exist; (d) read-modify-write '
     'of generator counters is under a lock on every path from a worker entry '
     'point.  Necessary conditions for exactly-once; schedules are not explored.')
-FLOORS = {'C16.r': 3, 'C16.a': 6, 'C16.b': 2, 'C16.c': 1, 'C16.d': 1, 'C16.e': 2, 'C16.z': 2, 'C16.f': 1}
+FLOORS = {'C16.g': 2, 'C16.r': 3, 'C16.a': 6, 'C16.b': 2, 'C16.c': 1, 'C16.d': 1, 'C16.e': 2, 'C16.z': 2, 'C16.f': 1}
 FILES = ['pyglove/core/tuning/local_backend.py', 'pyglove/core/tuning/sample.py',
          'pyglove/core/tuning/protocols.py', 'pyglove/core/tuning/backend.py',
          'pyglove/core/geno/dna_generator.py', 'pyglove/ext/evolution/base.py']
@@ -472,6 +472,50 @@ def rule_f(ctx):
          'pg.sample creates the backend lazily in the thread that iterates the loop', f.loc, '; '.join(problems))
 
 
+def rule_g(ctx):
+  """(1) done(): whatever can refuse the completion (no measurement yet) is
+  decided BEFORE the trial leaves PENDING - after the status store no `raise`
+  is reachable; otherwise the trial is COMPLETED without final measurement,
+  bookkeeping and feedback, and nobody can finish it any more.
+  (2) next(): a worker whose group still holds a PENDING trial gets that trial,
+  whatever the budget: the only way to StopIteration that does not pass the
+  pending-trial lookup is the study's own `is_active` test."""
+  idx = ctx.index
+  f = idx.func(LB + '_InMemoryFeedback.done')
+  g = C.cfg_of(f.node)
+  stores = [k for k in g.nodes if k.kind == 'stmt' and isinstance(k.ast, ast.Assign)
+            and any(isinstance(t, ast.Attribute) and t.attr == 'status' for t in k.ast.targets)]
+  problems = []
+  if not stores:
+    problems.append('status store not found')
+  for st in stores:
+    after, _ = g.reach(st, follow_exc=False)
+    later = [g.nodes[i] for i in after if i != st.id and g.nodes[i].kind == 'raisestmt' and isinstance(g.nodes[i].ast, ast.Raise)]
+    if later:
+      problems.append(f'line {later[0].lineno}: `{A.unparse(later[0].ast, 60)}` can still refuse after the trial was '
+                      f'marked (line {st.lineno})')
+  ctx.ob('C16.g', f.fq + '#refuse-before-transition', not problems,
+         'done() refuses (raises) only while the trial is still PENDING: nothing raises after the status transition',
+         f.loc, '; '.join(problems))
+  f = idx.func(LB + '_InMemoryBackend.next')
+  g = C.cfg_of(f.node)
+  lookups = {k.id for k in g.nodes if k.ast is not None and any((A.call_name(c) or '').endswith('get_latest_trial') for c in k.calls())}
+  problems = []
+  if not lookups:
+    problems.append('pending-trial lookup not found')
+  else:
+    seen, parent = g.reach(g.entry, blocked_nodes=lookups, follow_exc=False)
+    for k in g.nodes:
+      if k.id in seen and k.kind == 'raisestmt' and isinstance(k.ast, ast.Raise) and 'StopIteration' in A.unparse(k.ast):
+        # which tests lead here?
+        tests = [t for t in g.nodes if t.kind == 'test' and t.id in seen]
+        culprits = [A.unparse(t.ast, 60) for t in tests if 'is_active' not in A.unparse(t.ast)]
+        if culprits:
+          problems.append(f'line {k.lineno}: StopIteration before the pending-trial lookup, decided by {culprits}')
+  ctx.ob('C16.g', f.fq + '#pending-first', not problems,
+         'next() hands a group its PENDING trial before any budget test can end the loop', f.loc, '; '.join(problems))
+
+
 def run(ctx):
   ctx.consult(*FILES)
   from sa.rejections import REJECTIONS as _REJ
@@ -484,6 +528,7 @@ def run(ctx):
   rule_d(ctx)
   rule_e(ctx)
   rule_f(ctx)
+  rule_g(ctx)
   S.optional_truthiness_obligations(ctx, 'C16.z', ['pyglove/core/tuning/sample.py', 'pyglove/core/tuning/backend.py', 'pyglove/core/tuning/local_backend.py', 'pyglove/core/tuning/protocols.py'], 'group 0 is a group, reward 0.0 is a reward')
   ctx.assume('setup-time methods (__init__, _on_bound, setup, recover) run before workers start')
   ctx.assume('atomicity by construction is necessary, not sufficient, for exactly-once')
